@@ -42,7 +42,7 @@ def main():
     if touched and all(t.startswith("crates/ordinals/") for t in touched):
         only = "e1,e1s,ev"
     elif touched and all(t.startswith("src/") for t in touched):
-        only = "e2"
+        only = "e2,ev"
     try:
         for prop in props:
             t0 = time.time()
